@@ -41,8 +41,9 @@ fn parsed_clauses(s: &str, a: &Address, how: &str) -> Option<String> {
         Payload::WitnessProgram { version, program } => {
             let v = version.to_u8();
             let n = program.len();
+            // finding F5 (repaired in 86be616: from_bech32 tests the program length after splitting off the blinding key) — a violation if it returns
             if a.blinding_pubkey.is_some() && v >= 1 && n < 2 {
-                return Some(format!("F5-blinded-short-program|{} accepts {} as a blinded version-{} address with a {}-byte witness program", how, s, v, n));
+                return Some(format!("parsed-shape|{} accepts {} as a blinded version-{} address with a {}-byte witness program (finding F5 is back)", how, s, v, n));
             }
             if v > 16 || n < 2 || n > 40 || (v == 0 && n != 20 && n != 32) {
                 return Some(format!("parsed-shape|{} accepts {} with witness version {} and a {}-byte program", how, s, v, n));
